@@ -811,6 +811,7 @@ qb_ipcs_us_connect(struct qb_ipcs_service *s,
 
 	c->request.u.us.sock = c->setup.u.us.sock;
 	c->response.u.us.sock = c->setup.u.us.sock;
+	c->event.u.us.sock = -1;
 
 	snprintf(r->request, NAME_MAX, "%s-control-%s",
 		 c->description, s->name);
@@ -912,6 +913,18 @@ qb_ipcs_us_connect(struct qb_ipcs_service *s,
 cleanup_hdr:
 	free(c->response.u.us.sock_name);
 	free(c->event.u.us.sock_name);
+
+	/* the datagram sockets made here; the stream socket is the caller's */
+	if (c->request.u.us.sock >= 0 &&
+	    c->request.u.us.sock != c->setup.u.us.sock) {
+		qb_ipcc_us_sock_close(c->request.u.us.sock);
+	}
+	if (c->event.u.us.sock >= 0) {
+		qb_ipcc_us_sock_close(c->event.u.us.sock);
+	}
+	c->request.u.us.sock = -1;
+	c->response.u.us.sock = -1;
+	c->event.u.us.sock = -1;
 
 	if (fd_hdr >= 0) {
 		close(fd_hdr);
